@@ -185,6 +185,11 @@ func Harness_C14_shapes() {
 	cyc := g.cyclicFrom(0)
 	inKF := knownFinding("C14-cycle-beyond-first-element", cyc && !g.firstChainCyclic(0))
 	_ = inKF
+	if cyc {
+		// the rejection mechanism is the cycle detector, not exhaustion of the 1 MiB size limit
+		det, derr := root.CircularRefAndDepthDetection()
+		assert(det || derr != nil, "cycle-reported-by-detector")
+	}
 	sink := common.NewZeroCopySink(nil)
 	err := root.Serialize(sink)
 	if cyc {
@@ -265,4 +270,30 @@ func Harness_C14_leaf() {
 		return
 	}
 	assert(c14Same(&v, &out, 0), "leaf-roundtrip")
+}
+
+// Harness_C14_counts: container headers with every var-uint width and a full-width symbolic element count
+// (including counts >= 2^63 and counts far beyond the data): rejected or decoded, never a panic.
+func Harness_C14_counts() {
+	ty := []byte{arrayType, structType, mapType}[nondetRange("container", 3)]
+	buf := []byte{ty}
+	switch nondetRange("width", 4) {
+	case 0:
+		buf = append(buf, nondetU8("count8"))
+	case 1:
+		buf = append(buf, 0xFD)
+		buf = append(buf, nondetBytes("count16", 2)...)
+	case 2:
+		buf = append(buf, 0xFE)
+		buf = append(buf, nondetBytes("count32", 4)...)
+	default:
+		buf = append(buf, 0xFF)
+		buf = append(buf, nondetBytes("count64", 8)...)
+	}
+	buf = append(buf, nondetBytes("rest", nondetRange("restlen", 3))...)
+	var v VmValue
+	err := v.Deserialize(common.NewZeroCopySource(buf))
+	cover("deserialize-returned")
+	assert(true, "no-panic-on-any-count")
+	_ = err
 }
